@@ -36,6 +36,7 @@ properties! {
     "C13" => c13,
     "C14" => c14,
     "C15" => c15,
+    "C16" => c16,
     "C18" => c18,
     "C20" => c20,
 }
